@@ -160,9 +160,39 @@ def seeded(only, budget, all_props=False):
     return res
 
 
+def reverts(only, budget):
+    """The reverse of every fix: commit (in a scratch worktree of /repo under $TMPDIR) must be caught by the check of
+    the property it was recorded under."""
+    kf = json.load(open(os.path.join(VERIF, "known_findings.json")))
+    res = []
+    for f in kf.get("fixed", []):
+        tag = f"{f['id']}-{f['property']}"
+        if only and only not in tag:
+            continue
+        wt = tempfile.mkdtemp(prefix="qcosim_rev_")
+        os.rmdir(wt)
+        subprocess.run(["git", "-C", "/repo", "worktree", "add", "-q", "--detach", wt, "HEAD"], check=True)
+        try:
+            r = subprocess.run(["git", "-C", wt, "revert", "--no-commit", f["commit"]], capture_output=True, text=True)
+            if r.returncode != 0:
+                print(f"{tag:14s} REVERT-CONFLICT (later fixes build on it)")
+                res.append({"id": tag, "property": f["property"], "status": "NOT-APPLICABLE"})
+                subprocess.run(["git", "-C", wt, "revert", "--abort"], capture_output=True)
+                continue
+            rc, viol, oracles, out = _run_check(f["property"], os.path.join(wt, "src"), budget)
+            status = "CAUGHT" if rc == 1 and viol else ("HARNESS" if rc == 2 else "MISSED")
+            res.append({"id": tag, "property": f["property"], "status": status, "oracles": oracles[:2]})
+            print(f"{tag:14s} {status:8s} {[o[:160] for o in oracles[:2]]}")
+            if status == "HARNESS":
+                print(out[-1500:])
+        finally:
+            subprocess.run(["git", "-C", "/repo", "worktree", "remove", "--force", wt], capture_output=True)
+    return res
+
+
 def main():
     ap = argparse.ArgumentParser()
-    ap.add_argument("what", choices=["determinism", "mutants", "seeded"])
+    ap.add_argument("what", choices=["determinism", "mutants", "seeded", "reverts"])
     ap.add_argument("--n", type=int, default=1200)
     ap.add_argument("--profiles", default="C03,C18,C05")
     ap.add_argument("--only")
@@ -172,7 +202,10 @@ def main():
     a = ap.parse_args()
     if a.what == "determinism":
         return determinism(a.n, a.profiles.split(","))
-    res = mutants(a.only, a.with_tests, a.budget) if a.what == "mutants" else seeded(a.only, a.budget)
+    if a.what == "reverts":
+        res = reverts(a.only, a.budget)
+    else:
+        res = mutants(a.only, a.with_tests, a.budget) if a.what == "mutants" else seeded(a.only, a.budget)
     if a.out:
         with open(a.out, "w") as f:
             json.dump(res, f, indent=1)
